@@ -41,6 +41,23 @@ ASSUMPTIONS = [
 
 KEY_RAISES = "state_to_graph:valid-state:raises:assertion"
 KEY_D49 = "state_to_graph:float-determinant-truncated:raises"
+# float precision limit of `np.round(np.linalg.det(x) * np.linalg.inv(x)) % 2` (found while proving completeness, handoff/deep-c08.md):
+# for a 0/1 matrix whose integer determinant is ~1e13 or more the float product is not within 1/2 of the adjugate (beyond 2^53 not even the
+# parity of the determinant survives), so state_to_graph raises on valid states from ~42 qubits on (|0..0> in a dense generating set:
+# 19 % at n = 42, 85 % at n = 44, 100 % from n = 52).  Never a wrong result (closing assertions).  Reported as a violation only once the key
+# is listed in known_findings.txt (shared file, coordinator's decision); until then the reproduction is recorded in the evidence notes.
+KEY_FLOAT53 = "state_to_graph:float-determinant-precision:raises"
+# Z part (42 x 42, row-major bits as hex) of a generating set of |0..0> on 42 qubits on which /repo raises 'Unexpected X matrix.' (det = 86641533866367)
+FLOAT_LIMIT_Z42 = "15c245dd0e26245e41cb4fbe50f78eb36385a958618f1fbd96f3c99bf7307a54d9731cc6af23df33c3d12d6894b1cc92b2ad5ed12032a0f4e9c9e13920b82fa69812afb10b28541951bb137a62d330509a6f2a200f34c80bd15ba275042a57a50d904cc693b56d7d236c9771f7e6c68065372f0ff0d04181de9851ce9266cbb690d3c9b0d80aa9ab9aa0c9b83efa26861407fdde3849c546b90defcbb05ad2d0bb5c158961c157f5093944d42224a3331ea33b8a645e392daeba97297b40926ecbb43b0de9e7e903114d7440892b5a96986533233cbb10744dcdc9d10"
+
+
+def _finding_listed(key):
+    from harness import common
+
+    try:
+        return key in [k for k, _ in common.load_known_findings("C08")]
+    except Exception:  # noqa: BLE001
+        return False
 
 
 class ExactLinalg:
@@ -73,14 +90,21 @@ class ExactLinalg:
                         m[i] = [u - f * v for u, v in zip(m[i], m[c])]
             return det, [[m[i][n + j] for j in range(n)] for i in range(n)]
 
+        big = 1 << 50  # beyond this a float64 no longer holds the integers exactly: report determinant and adjugate reduced mod 2 (odd
+        # determinant -> 1.0, and `inv` := adjugate mod 2, so that round(det * inv) % 2 is the exact adjugate mod 2, all the code uses)
+
         def det(a):
-            return np.float64(int(elim(a)[0]))
+            d = int(elim(a)[0])
+            return np.float64(d if abs(d) < big else d % 2)
 
         def inv(a):
             d, iv = elim(a)
             if iv is None:
                 raise np.linalg.LinAlgError("Singular matrix")
-            return np.array([[int(d * v) for v in r] for r in iv], dtype=float) / float(int(d))
+            adj = [[int(d * v) for v in r] for r in iv]
+            if abs(int(d)) < big and all(abs(v) < big for r in adj for v in r):
+                return np.array(adj, dtype=float) / float(int(d))
+            return np.array([[v % 2 for v in r] for r in adj], dtype=float)
 
         np.linalg.det, np.linalg.inv = det, inv
         return self
@@ -210,6 +234,8 @@ def check_state_to_graph(ctx, res, drv, tab, pending, tag):
     inp = {"stab": su.stab_args(st), "case": tag, "input_type": type(tab).__name__}
     res.evaluations += 1
     n = st.n_qubits
+    if tag == "corpus:float-limit":
+        inp["n"] = n
     res.count("sizes", f"n={n}" if n <= 6 else "n>6")
     out = impl_state_to_graph(tab)
     # exact comparison with the model of state_to_graph (classification of raises happens in flush, where the model's answer is known)
@@ -230,6 +256,17 @@ def classify_raise(res, inp, impl, rep):
     # the exact model returns: is floating point the only difference?
     with ExactLinalg():
         again = impl_state_to_graph(tab)
+    if again[0] == "ok" and (again[1], again[2]) == (rep.get("a"), rep.get("gates")) and inp.get("case") == "corpus:float-limit":
+        desc = (f"state_to_graph raises AssertionError('{impl[2]}') on a valid {inp.get('n')}-qubit stabilizer state although exact arithmetic converts it "
+                "(and to the model's answer): the float det*inv of a 0/1 matrix with a determinant of ~1e13 or more is not within 1/2 of the adjugate")
+        res.count("errors", "float-precision-limit")
+        short = dict(case=inp["case"], n=inp.get("n"), error=impl[2], stab=inp["stab"][:80] + "...")
+        if _finding_listed(KEY_FLOAT53):
+            res.violation(KEY_FLOAT53, desc, input=dict(inp, exact_result=again))
+        else:
+            res.notes.append("float precision limit reproduced (not a listed finding yet, see handoff/deep-c08.md): " + desc)
+            res.extra.setdefault("float_precision_limit_reproduced", []).append(short)
+        return True
     if again[0] == "ok" and (again[1], again[2]) == (rep.get("a"), rep.get("gates")):
         res.count("errors", "D49:float-determinant")
         res.violation(KEY_D49, f"state_to_graph raises AssertionError('{impl[2]}') on a valid stabilizer state although exact arithmetic converts it: "
@@ -393,6 +430,27 @@ FORMER_D40 = ["n=1 x=0 z=1 r=0", "n=2 x=0100 z=1010 r=00", "n=3 x=011000000 z=00
 D49_WITNESS = "n=5 x=0000000000000001100000000 z=1111000011001010101011001 r=00110"
 
 
+def dense_zero_state(rng, n):
+    """|0..0> on n qubits presented by a random dense generating set: X part 0, Z part a random invertible GF(2) matrix, signs +"""
+    from graphiq.backends.stabilizer.tableau import StabilizerTableau
+
+    while True:
+        b = np.array([[rng.randrange(2) for _ in range(n)] for _ in range(n)], dtype=int)
+        m = b.copy()
+        r = 0
+        for c in range(n):
+            p = next((i for i in range(r, n) if m[i, c]), None)
+            if p is None:
+                break
+            m[[r, p]] = m[[p, r]]
+            for i in range(n):
+                if i != r and m[i, c]:
+                    m[i] ^= m[r]
+            r += 1
+        if r == n:
+            return StabilizerTableau([np.zeros((n, n), dtype=int), b])
+
+
 def run(ctx, budget=1.0):
     import networkx as nx
 
@@ -407,6 +465,12 @@ def run(ctx, budget=1.0):
     for w in FORMER_D40:
         check_state_to_graph(ctx, res, drv, stab_of_args(w), pending, "corpus:former-D40")
     check_state_to_graph(ctx, res, drv, stab_of_args(D49_WITNESS), pending, "corpus:D49")
+    # the float precision limit: |0..0> on 42 qubits in a dense generating set (fixed witness) and random ones on 48 qubits
+    z42 = bin(int(FLOAT_LIMIT_Z42, 16))[2:].zfill(42 * 42)
+    check_state_to_graph(ctx, res, drv, stab_of_args(f"n=42 x={'0' * 1764} z={z42} r={'0' * 42}"), pending, "corpus:float-limit")
+    for _ in range(1 if ctx.quick else 5):
+        check_state_to_graph(ctx, res, drv, dense_zero_state(rng, 48), pending, "corpus:float-limit")
+    flush(res, drv, pending)
     nmax = 4 if ctx.quick else 5
     for n in range(1, nmax + 1):
         for adj in all_adj(n):
